@@ -109,6 +109,9 @@ def programs(tier: str):
             "cb": "sync",
             "cancel_body": 1,
         }
+    for place in ("spawn", "create"):
+        yield {"tree": {"kind": "a", "place": "root", "c": [{"kind": "a", "place": place, "c": []}]}, "cb": "alt", "cancel_enter": 1, "fine": True}
+        yield {"tree": {"kind": "a", "place": "root", "c": [{"kind": "a", "place": place, "c": []}]}, "cb": "alt", "cancel_body": 1, "fine": True}
     if tier == "thorough":
         from hv.ctxkit import forest_shapes
 
@@ -148,7 +151,7 @@ class SuspDisp(Disp):
 
 
 def execute(program, ch: Chooser) -> Result:  # noqa: C901, PLR0915
-    w = World(ch, cancel_budget=1 if (program.get("cancel_enter") is not None or program.get("cancel_body") is not None) else 0, batch=program.get("batch", 1))
+    w = World(ch, cancel_budget=1 if (program.get("cancel_enter") is not None or program.get("cancel_body") is not None) else 0, batch=program.get("batch", 1), fine=program.get("fine", False))
     flips: list = []
 
     def on_quiescent() -> None:
